@@ -165,7 +165,7 @@ Qed.
 
 (** non-vacuity: after the history [ex6] without its final delete, the document (object 3, with an
     array, strings, owned and constant keys, a reference) can be duplicated *)
-Definition ex6_live : list op3 := take 27 CoreHistoryAllEx.ex6.
+Definition ex6_live : list op3 := take 30 CoreHistoryAllEx.ex6.
 Lemma ex6_live_accepted : pre_ok_all3b S0 ex6_live = true.
 Proof. vm_compute. reflexivity. Qed.
 Lemma ex6_live_dup_ok : dup_okb (spec_run3 S0 ex6_live) 3 = true.
@@ -192,4 +192,36 @@ Proof.
   exists tc, h'. split; [exact E|]. pose proof (proj1 (proj1 (proj1 HA'))) as W'. unfold a_forest in HF.
   change (as_forest (a_st S')) with (a_forest S') in W'. unfold a_forest in W'. rewrite HF in W'.
   apply (WF_lookup_lnk_root _ _ _ W'). rewrite roots_app. apply elem_of_app. right. by left.
+Qed.
+
+(** history, then a duplication, then the clean-up of every root INCLUDING the copy: balanced *)
+Corollary dup_then_balanced ops p :
+  pre_ok_all3b S0 ops = true -> dup_okb (spec_run3 S0 ops) p = true ->
+  exists h1 tc h2 h3,
+    run_ops3 ops empty_heap = Ret (spec_results3 S0 ops, h1) /\
+    cJSON_Duplicate nv (Some p) true h1 = Ret (Some (tid tc), h2) /\
+    delete_roots (roots (a_forest (spec_run3 S0 ops) ++ [tc])) h2 = Ret (tt, h3) /\
+    lib_live h3 = ∅ /\
+    (forall b, h_own h1 !! b = Some Foreign -> b ∈ h_live h1 -> b ∈ h_live h3 /\ h_str h3 !! b = h_str h1 !! b).
+Proof.
+  intros Hops Hdup. destruct (history3_checked ops Hops) as (h1 & E1 & HA1).
+  destruct (dup_continues_checked h1 _ p HA1 Hdup) as (t & tc & h2 & S2 & _ & E2 & _ & HA2 & HF2 & _).
+  destruct (delete_roots_sim (a_forest S2) S2 h2 eq_refl HA2) as (h3 & S3 & E3 & HA3 & _ & HL3).
+  rewrite HF2 in E3. exists h1, tc, h2, h3. refine (conj E1 (conj E2 (conj E3 (conj HL3 _)))).
+  intros b Ho Hl.
+  pose proof (Cons_cJSON_Duplicate nv (Some p) true _ _ _ E2 (proj2 HA1)) as CP2.
+  pose proof (Cons_delete_roots _ _ _ _ E3 (proj2 HA2)) as CP3.
+  destruct (cp_foreign _ _ CP2 b Ho Hl) as [Hl2 Hs2].
+  assert (Ho2 : h_own h2 !! b = Some Foreign).
+  { rewrite (cp_own _ _ CP2); [done|]. by apply (hk_live _ (proj2 HA1)). }
+  destruct (cp_foreign _ _ CP3 b Ho2 Hl2) as [Hl3 Hs3]. split; [done|congruence].
+Qed.
+Corollary ex6_dup_balanced :
+  exists h1 tc h2 h3,
+    run_ops3 ex6_live empty_heap = Ret (spec_results3 S0 ex6_live, h1) /\
+    cJSON_Duplicate nv (Some 3%positive) true h1 = Ret (Some (tid tc), h2) /\
+    delete_roots (roots (a_forest (spec_run3 S0 ex6_live) ++ [tc])) h2 = Ret (tt, h3) /\ lib_live h3 = ∅.
+Proof.
+  destruct (dup_then_balanced ex6_live 3%positive ex6_live_accepted ex6_live_dup_ok) as (h1 & tc & h2 & h3 & E1 & E2 & E3 & E4 & _).
+  exists h1, tc, h2, h3. exact (conj E1 (conj E2 (conj E3 E4))).
 Qed.
